@@ -161,6 +161,11 @@ def replay_candidate(modname, cand, scratch_dir, timeout=120):
         for line in reversed(out):
             if line.startswith("REPLAY-RESULT "):
                 return json.loads(line[len("REPLAY-RESULT "):])
+        if p.returncode < 0:
+            # the interpreter itself was killed (segmentation fault, abort): the real library
+            # crashed on the replay inputs -- a reproduction, not a harness failure
+            return {"reproduced": True, "key": "crash:signal%d" % (-p.returncode),
+                    "what": "the real library crashed the interpreter (signal %d) on the replay of %r" % (-p.returncode, cand.get("label", "")[:120])}
         return {"reproduced": False, "what": "replay crashed: " + p.stderr.decode(errors="replace")[-400:],
                 "key": None, "crashed": True}
     except subprocess.TimeoutExpired:
